@@ -63,12 +63,12 @@ func init() {
 	(&specSweepCheck{
 		id: "C08",
 		rule: "input-space exploration: every argv of length <= L over {unknown long/short/bundled options with and without attached values, known options, value, command, wrapper command (UnsetOptions), positional, terminator} " +
-			"x 3 unknown modes x 3 single-dash modes on a tree root{a,s}/c{d}/w(wrapper); error (class and quoted name), warnings written to Writer, remaining and known option values compared with the reference model; " +
+			"x 3 unknown modes x 3 single-dash modes on a tree root{a,s,m map(1,2),li []int(1,2),help}/c{d}/w(wrapper); error (class and quoted name), warnings written to Writer, remaining and known option values compared with the reference model; " +
 			"distinct_nontrivial = distinct (definition, argv) cases inside the specified territory",
 		defs: func(string) []*ph.Def {
 			return configs(func() *ph.Def {
-				return &ph.Def{Root: ph.CmdDef{Name: "prog",
-					Opts: []ph.OptDef{{Name: "a", Kind: ph.Bool}, {Name: "s", Kind: ph.Str}},
+				return &ph.Def{Help: "help", Root: ph.CmdDef{Name: "prog",
+					Opts: []ph.OptDef{{Name: "a", Kind: ph.Bool}, {Name: "s", Kind: ph.Str}, {Name: "m", Kind: ph.Map, Min: 1, Max: 2}, {Name: "li", Kind: ph.IntS, Min: 1, Max: 2}},
 					Cmds: []*ph.CmdDef{
 						{Name: "c", Opts: []ph.OptDef{{Name: "d", Kind: ph.Bool}}},
 						{Name: "w", Unset: true},
@@ -76,8 +76,9 @@ func init() {
 				}}
 			}, []bool{false})
 		},
-		alpha:  []string{"--zz", "-z", "-az", "-zy", "--zz=1", "--a", "--s", "v", "c", "w", "p", "--", "--d"},
-		depthQ: 5, depthT: 6,
+		alpha:    []string{"--zz", "-z", "-az", "-zy", "--zz=1", "--a", "--s", "v", "c", "w", "p", "--", "--d"},
+		alphaExt: []string{"--help", "--m", "k=v", "--li", "5", "-1"}, // help requested next to an unknown option; unknown options that look like a well-formed element behind a multi-value option
+		depthQ:   5, depthT: 6,
 		facets: ph.AllFacets,
 		extra: func(pc *parserCase, info specInfo) ([]string, []string) {
 			var cs []string
